@@ -219,6 +219,10 @@ def calib_cases(r, cls_cycle, n_scen, entries=("run_mode",), max_islands=1):
                               pop=pop, evolutions=evol, islands=islands,
                               runs=[dict(id=i, t=None, q=None, tag=None, params=[]) for i in range(total + 1)],
                               faults=[f], scheduler="threads"))
+            if entry == "method" and (n >= init or len(cases) % 2 == 0):
+                # Calibration.run_calibration(with_progress_bar=False) - the only way to switch the bar off; the same
+                # behaviour is due (the other entry points cover the evolutions with the bar on)
+                cases[-1]["no_bar"] = True
     return cases
 
 
@@ -383,7 +387,7 @@ def emit_file(pairs) -> str:
 
 def slim(c):
     return {k: c[k] for k in ("mode", "entry", "outputs", "debug", "cleanup_fails", "chained", "pmode", "seed", "groups", "nsteps",
-                              "params", "runs", "faults", "scheduler", "pop", "evolutions", "islands")
+                              "params", "runs", "faults", "scheduler", "pop", "evolutions", "islands", "no_bar")
             if k in c}
 
 
@@ -512,7 +516,7 @@ def correspondence(ctx: Ctx, cases, tag="c", confirm=True):
             ctx.dist("scheduler", c.get("scheduler"))
         if c["mode"] == "calib":
             ctx.dist("islands", c.get("islands", 1))
-        for flag in ("debug", "cleanup_fails", "chained"):
+        for flag in ("debug", "cleanup_fails", "chained", "no_bar"):
             if c.get(flag):
                 ctx.dist("flags", flag)
         ctx.dist("faults", len(c["faults"]))
